@@ -156,6 +156,25 @@ def probe_ladder(known):
     return rows
 
 
+def probe_accept():
+    """Fallback for `elseSetsSuccess` when no `else:` clause says so syntactically (e.g. the handlers return early and
+    the success flag is set after the try): measured on the real verify() with a text the parser accepts."""
+    import pedal.source.source as srcmod
+    from pedal.core.report import Report
+    from pedal.core.submission import Submission
+    for text in ("x = 1\n", "def f():\n    return 2\n"):
+        rep = Report()
+        rep.contextualize(Submission({"answer.py": text}, "answer.py"))
+        rep["source"]["success"] = None
+        rep["source"]["ast"] = None
+        r = srcmod.verify(report=rep)
+        tree = rep["source"]["ast"]
+        if r is not True or rep["source"]["success"] is not True or not isinstance(tree, ast.Module) \
+                or ast.dump(tree) != ast.dump(ast.parse(text)) or rep.feedback:
+            return False
+    return True
+
+
 def translate():
     use_repo()
     from pedal.source import feedbacks as fbmod
@@ -207,6 +226,13 @@ def translate():
                 handlers, ladder_source = probed, "probed"
         except Exception:  # noqa: the probe could not run; keep the opaque rows (the theorems then fail)
             pass
+    accept_source = "ast"
+    if not else_success and parse_in_try:
+        try:
+            if probe_accept():
+                else_success, accept_source = True, "probed"
+        except Exception:  # noqa: keep what the reading said
+            pass
     mros = []
     for c in CLASSES:
         cls = getattr(builtins, c)
@@ -236,7 +262,7 @@ def translate():
     ])
     changed = write_if_changed(os.path.join(LEAN_DIR, "PedalModel", "Gen", "SourceTables.lean"), src)
     return {"file": "PedalModel/Gen/SourceTables.lean", "sha1": hashlib.sha1(src.encode()).hexdigest()[:12],
-            "changed": changed, "ladder_source": ladder_source}
+            "changed": changed, "ladder_source": ladder_source, "accept_source": accept_source}
 
 
 if __name__ == "__main__":
